@@ -10,6 +10,7 @@ import (
 	"fmt"
 	"os"
 	"io"
+	"sync"
 {{if not .NoAST}}	"bytes"
 {{end}})
 
@@ -43,6 +44,7 @@ type Req struct {
 	Pretty bool
 	Stdout bool
 	NoExec bool
+	Shared bool
 }
 
 type Res struct {
@@ -164,7 +166,21 @@ func captureStdout(f func()) string {
 	return <-done
 }
 
+// sharedOpts caches option values so that several instances (also on different goroutines) are initialised with the
+// very same option value, as a program keeping "var parserOptions = ..." at package level would do.
+var sharedOpts sync.Map
+
 func options[U Uint](req *Req) []func(*{{.Type}}[U]) error {
+	if req.Shared {
+		key := fmt.Sprintf("%T/%d/%v/%v", *new(U), req.Size, req.Memo, req.Pretty)
+		if v, ok := sharedOpts.Load(key); ok {
+			return v.([]func(*{{.Type}}[U]) error)
+		}
+		r2 := *req
+		r2.Shared = false
+		v, _ := sharedOpts.LoadOrStore(key, options[U](&r2))
+		return v.([]func(*{{.Type}}[U]) error)
+	}
 	var opts []func(*{{.Type}}[U]) error
 {{if not .NoAST}}
 	if req.Size > 0 {
@@ -411,6 +427,94 @@ func conc(h *head) []byte {
 		Results []map[string]int
 	}
 	b, _ := json.Marshal(outT{Seq: h.Seq, Overlap: overlap, Calls: calls, Results: results})
+	return b
+}
+`
+
+// bareProbeTmpl: probe for grammars that are not ours (the shipped example grammars): no observer methods, no
+// assumptions about the parser state; it only calls the public API and reads tokens / error token.
+const bareProbeTmpl = `package {{.Pkg}}
+
+import (
+	"encoding/json"
+	"fmt"
+)
+
+type Tk struct {
+	R string ` + "`json:\"r\"`" + `
+	B uint64 ` + "`json:\"b\"`" + `
+	E uint64 ` + "`json:\"e\"`" + `
+}
+
+type Req struct {
+	Seq   int
+	In    []byte
+	Memo  bool
+	Size  int
+	Pretty bool
+}
+
+type Res struct {
+	Seq    int
+	OK     bool
+	Panic  string ` + "`json:\",omitempty\"`" + `
+	Toks   []Tk   ` + "`json:\",omitempty\"`" + `
+	Max    *Tk    ` + "`json:\",omitempty\"`" + `
+	Err    string ` + "`json:\",omitempty\"`" + `
+	ErrType string ` + "`json:\",omitempty\"`" + `
+	Sprint string ` + "`json:\",omitempty\"`" + `
+	NRunes int
+}
+
+func one(req *Req) (res Res) {
+	res.Seq = req.Seq
+	defer func() {
+		if r := recover(); r != nil {
+			res.Panic = fmt.Sprint(r)
+		}
+	}()
+	p := &{{.Type}}[uint32]{Buffer: string(req.In)}
+	var opts []func(*{{.Type}}[uint32]) error
+	if req.Size > 0 {
+		opts = append(opts, Size[uint32](req.Size))
+	}
+	if !req.Memo {
+		opts = append(opts, DisableMemoize[uint32]())
+	}
+	if req.Pretty {
+		opts = append(opts, Pretty[uint32](true))
+	}
+	if err := p.Init(opts...); err != nil {
+		res.Panic = "Init error: " + err.Error()
+		return
+	}
+	err := p.Parse()
+	res.OK = err == nil
+	res.NRunes = len([]rune(p.Buffer))
+	if err != nil {
+		res.ErrType = fmt.Sprintf("%T", err)
+		if pe, ok := err.(*parseError[uint32]); ok {
+			res.Max = &Tk{rul3s[pe.maxToken.pegRule], uint64(pe.maxToken.begin), uint64(pe.maxToken.end)}
+		}
+		res.Err = err.Error()
+		return
+	}
+	for _, t := range p.Tokens() {
+		res.Toks = append(res.Toks, Tk{rul3s[t.pegRule], uint64(t.begin), uint64(t.end)})
+	}
+	res.Sprint = p.SprintSyntaxTree()
+	return
+}
+
+func Run(reqJSON []byte) []byte {
+	var req Req
+	var res Res
+	if err := json.Unmarshal(reqJSON, &req); err != nil {
+		res.Panic = "bad request: " + err.Error()
+	} else {
+		res = one(&req)
+	}
+	b, _ := json.Marshal(res)
 	return b
 }
 `
